@@ -270,7 +270,147 @@ def t_reorder(tree, src):
     return tree
 
 
-TRANSFORMS = {"unparse": t_unparse, "rename": t_rename, "renameparams": t_renameparams, "flipif": t_flipif, "rettemp": t_rettemp,
+class _CmpSwap(ast.NodeTransformer):
+    SW = {ast.Lt: ast.Gt, ast.Gt: ast.Lt, ast.LtE: ast.GtE, ast.GtE: ast.LtE, ast.Eq: ast.Eq, ast.NotEq: ast.NotEq}
+
+    def visit_Compare(self, node):
+        self.generic_visit(node)
+        if len(node.ops) == 1 and type(node.ops[0]) in self.SW:
+            # operands without calls / attribute access on both sides: evaluation order cannot matter
+            if all(isinstance(x, (ast.Name, ast.Constant, ast.Subscript, ast.Attribute, ast.BinOp, ast.UnaryOp, ast.Load, ast.Store,
+                                  ast.operator, ast.unaryop, ast.expr_context, ast.Tuple, ast.Slice)) for side in (node.left, node.comparators[0]) for x in ast.walk(side)):
+                return ast.copy_location(ast.Compare(left=node.comparators[0], ops=[self.SW[type(node.ops[0])]()], comparators=[node.left]), node)
+        return node
+
+
+def t_cmpswap(tree, src):
+    return _CmpSwap().visit(tree)
+
+
+class _MergeIf(ast.NodeTransformer):
+    def visit_If(self, node):
+        self.generic_visit(node)
+        if not node.orelse and len(node.body) == 1 and isinstance(node.body[0], ast.If) and not node.body[0].orelse:
+            inner = node.body[0]
+            return ast.copy_location(ast.If(test=ast.BoolOp(op=ast.And(), values=[node.test, inner.test]), body=inner.body, orelse=[]), node)
+        return node
+
+
+def t_mergeif(tree, src):
+    return _MergeIf().visit(tree)
+
+
+class _Hoist(ast.NodeTransformer):
+    """x = f(g(y), ...)  ->  _h = g(y); x = f(_h, ...)   for simple statements, first positional argument that is itself a call and
+    is preceded only by names / constants (so the relative order of all calls is unchanged)"""
+    def __init__(self):
+        self.k = 0
+
+    def _block(self, stmts):
+        out = []
+        for st in stmts:
+            st = self.visit(st)
+            val = None
+            if isinstance(st, (ast.Assign, ast.AugAssign, ast.Return)) and isinstance(st.value, ast.Call):
+                val = st.value
+            elif isinstance(st, ast.Expr) and isinstance(st.value, ast.Call):
+                val = st.value
+            done = False
+            if val is not None and isinstance(val.func, (ast.Name, ast.Attribute)) and not any(isinstance(a, ast.Starred) for a in val.args):
+                fn_simple = all(isinstance(x, (ast.Name, ast.Attribute, ast.Load)) for x in ast.walk(val.func))
+                for i, a in enumerate(val.args):
+                    if isinstance(a, ast.Call) and fn_simple and all(isinstance(b, (ast.Name, ast.Constant)) for b in val.args[:i]) \
+                            and not any(isinstance(x, (ast.Lambda, ast.NamedExpr, ast.Yield, ast.Await)) for x in ast.walk(a)):
+                        self.k += 1
+                        nm = "_h%d" % self.k
+                        out.append(ast.copy_location(ast.Assign(targets=[ast.Name(id=nm, ctx=ast.Store())], value=a, lineno=st.lineno), st))
+                        val.args[i] = ast.Name(id=nm, ctx=ast.Load())
+                        out.append(st)
+                        done = True
+                        break
+            if not done:
+                out.append(st)
+        return out
+
+    def generic_visit(self, node):
+        for f in ("body", "orelse", "finalbody"):
+            v = getattr(node, f, None)
+            if isinstance(v, list) and v and isinstance(v[0], ast.stmt):
+                setattr(node, f, self._block(v))
+        if isinstance(node, ast.Try):
+            for h in node.handlers:
+                h.body = self._block(h.body)
+        return node
+
+    def visit_Lambda(self, node):
+        return node
+
+    def visit_ClassDef(self, node):
+        # class bodies: only descend into methods
+        node.body = [self.visit(x) if isinstance(x, (ast.FunctionDef, ast.AsyncFunctionDef)) else x for x in node.body]
+        return node
+
+
+def t_hoist(tree, src):
+    h = _Hoist()
+    tree.body = [h.visit(x) if isinstance(x, (ast.FunctionDef, ast.AsyncFunctionDef, ast.ClassDef)) else x for x in tree.body]
+    return tree
+
+
+def t_logging(tree, src):
+    """a call of a module-level no-op logger is inserted at the start of every function and in front of every return"""
+    class L(ast.NodeTransformer):
+        def _call(self, at, text):
+            return ast.copy_location(ast.Expr(value=ast.Call(func=ast.Name(id="_neutral_probe_log", ctx=ast.Load()),
+                                                              args=[ast.Constant(value=text)], keywords=[])), at)
+
+        def _block(self, stmts):
+            out = []
+            for st in stmts:
+                st = self.visit(st)
+                if isinstance(st, ast.Return):
+                    out.append(self._call(st, "leaving"))
+                out.append(st)
+            return out
+
+        def generic_visit(self, node):
+            for f in ("body", "orelse", "finalbody"):
+                v = getattr(node, f, None)
+                if isinstance(v, list) and v and isinstance(v[0], ast.stmt):
+                    setattr(node, f, self._block(v))
+            if isinstance(node, ast.Try):
+                for h in node.handlers:
+                    h.body = self._block(h.body)
+            if isinstance(node, (ast.FunctionDef, ast.AsyncFunctionDef)):
+                k = 1 if (node.body and isinstance(node.body[0], ast.Expr) and isinstance(node.body[0].value, ast.Constant)) else 0
+                node.body.insert(k, self._call(node.body[0], "entering " + node.name))
+            return node
+
+        def visit_Lambda(self, node):
+            return node
+    tree = L().visit(tree)
+    fn = ast.parse("def _neutral_probe_log(msg):\n    pass\n").body[0]
+    k = 0
+    while k < len(tree.body) and (isinstance(tree.body[k], (ast.Import, ast.ImportFrom)) or
+                                  (isinstance(tree.body[k], ast.Expr) and isinstance(tree.body[k].value, ast.Constant))):
+        k += 1
+    tree.body.insert(k, fn)
+    return tree
+
+
+def t_tryfinally(tree, src):
+    """every function body (after the docstring) is wrapped in  try: <body> finally: pass"""
+    for fn in ast.walk(tree):
+        if isinstance(fn, (ast.FunctionDef, ast.AsyncFunctionDef)):
+            k = 1 if (fn.body and isinstance(fn.body[0], ast.Expr) and isinstance(fn.body[0].value, ast.Constant)) else 0
+            rest = fn.body[k:]
+            if not rest or any(isinstance(x, (ast.Global, ast.Nonlocal)) for x in rest):
+                continue
+            fn.body = fn.body[:k] + [ast.copy_location(ast.Try(body=rest, handlers=[], orelse=[], finalbody=[ast.Pass()]), rest[0])]
+    return tree
+
+
+TRANSFORMS = {"tryfinally": t_tryfinally, "logging": t_logging, "cmpswap": t_cmpswap, "mergeif": t_mergeif, "hoist": t_hoist, "unparse": t_unparse, "rename": t_rename, "renameparams": t_renameparams, "flipif": t_flipif, "rettemp": t_rettemp,
               "docstring": t_docstring, "reorder": t_reorder}
 
 
